@@ -1,4 +1,6 @@
 import BeyondVerif.Model.Sgp4Wrap
+import BeyondVerif.Model.Sgp4Inst
+import BeyondVerif.Generated.Sgp4BetaInst
 import BeyondVerif.Generated.Sgp4BetaF
 import BeyondVerif.Model.Sgp4RefF
 import BeyondVerif.Drv.Util
@@ -9,6 +11,7 @@ open BeyondVerif BeyondVerif.Drv
 library for the UTC datetime `us` microseconds after 0001-01-01 (rejects negative / non-numeric input)
 `sgp4beta <i0 Ω0 e0 ω0 M0 n0 bstar tdiff>` → six floats: `Sgp4Beta` (setter + propagate), tdiff in minutes
 `sgp4init <i0 Ω0 e0 ω0 M0 n0 bstar>` → the twenty cached `_init` values
+`natseq b<inst>:<orbit> … p<inst> …` → per `p`: `<orbit whose elements are used>:<orbit whose cached constants are used>` (`Sgp4Inst.runSeq` with the storage read from the source)
 `wrapseq e<key>:<version> … p …` → per `p`: `<setter ran>:<version the record in use was built from>` (`Sgp4Wrap.runSeq`, the binding state machine)
 `refinit <ecco inclo argpo no_kozai bstar>` → the reference spec's `[isimp, deep, no_unkozai, ao, eta, cc1, cc3, cc4, …]` (`F.refInit`)
 `refsgp4 <ecco inclo nodeo argpo mo no_kozai bstar t>` → the reference spec's mean elements and state (`F.refSgp4`), t in minutes -/
@@ -27,6 +30,10 @@ def handle : List String → Option String
     match takeFloats 7 rest with
     | some ([i0, raan, e0, argp, m0, n0, bstar], []) => fsToStr (F.sgp4Init i0 raan e0 argp m0 n0 bstar)
     | _ => "bad-op"
+  | "natseq" :: rest => some <|
+    match Sgp4Inst.runSeq Sgp4BetaInst.initStorage Sgp4Inst.State.empty rest with
+    | some l => if l.isEmpty then "-" else joinWith " " l
+    | none => "bad-op"
   | "wrapseq" :: rest => some <|
     match Sgp4Wrap.runSeq none (0, 0) rest with
     | some l => if l.isEmpty then "-" else joinWith " " l
